@@ -627,6 +627,81 @@ func runC17Again(w *hx.Worker, k kindT) {
 	}
 }
 
+// two distinct named numeric types that print the same (reflect.Type.String() is not an identity): local
+// types of two functions. Each converts with its OWN width, whichever was used first in the process.
+func levelNarrow() reflect.Type {
+	type Level int8
+	return reflect.TypeOf(Level(0))
+}
+
+func levelWide() reflect.Type {
+	type Level int64
+	return reflect.TypeOf(Level(0))
+}
+
+func levelFloat() reflect.Type {
+	type Level float32
+	return reflect.TypeOf(Level(0))
+}
+
+func runC17SameName(w *hx.Worker) {
+	types := []struct {
+		t reflect.Type
+		k kindT
+	}{}
+	for _, k := range kinds {
+		switch k.name {
+		case "int8":
+			types = append(types, struct {
+				t reflect.Type
+				k kindT
+			}{levelNarrow(), k})
+		case "int64":
+			types = append(types, struct {
+				t reflect.Type
+				k kindT
+			}{levelWide(), k})
+		case "float32":
+			types = append(types, struct {
+				t reflect.Type
+				k kindT
+			}{levelFloat(), k})
+		}
+	}
+	texts := []string{"7", "-5", "127", "128", "300", "70000000000", "1.5", "1e39", "x"}
+	for round := 0; round < 2; round++ {
+		for _, ty := range types {
+			st := reflect.StructOf([]reflect.StructField{{Name: "V", Type: ty.t, Tag: `@Num`}})
+			p, err := participle.Build[any](participle.Lexer(numLexerWhole), participle.Elide("Space"), participle.Union[any](reflect.New(st).Elem().Interface()))
+			if err != nil {
+				w.Violate(hx.Violation{Key: "same-name " + ty.t.String(), Class: "build-failed", Detail: map[string]any{"err": err.Error()}})
+				continue
+			}
+			for _, tx := range texts {
+				key := fmt.Sprintf("same-name field=%s (kind %s, one of several distinct types called %s) round=%d :: in=%q", ty.t.String(), ty.t.Kind(), ty.t.String(), round, tx)
+				w.Count("evaluations", 1)
+				o, oerr := oracle(ty.k, tx)
+				var res *any
+				var perr error
+				pan, msg := hx.Guard(func() { res, perr = p.ParseString("", tx) })
+				switch {
+				case pan:
+					w.Violate(hx.Violation{Key: key, Class: "panic", Detail: map[string]any{"panic": msg}})
+				case oerr != nil && perr == nil:
+					w.Violate(hx.Violation{Key: key, Class: "invalid-number-accepted", Detail: map[string]any{"ast": g2s(res), "strconv": oerr.Error()}})
+				case oerr == nil && perr != nil:
+					w.Violate(hx.Violation{Key: key, Class: "valid-number-rejected", Detail: map[string]any{"error": perr.Error()}})
+				case oerr == nil:
+					if b, nan := valueBits(reflect.ValueOf(*res).FieldByName("V")); nan != o.nan || (!nan && b != o.bits) {
+						w.Violate(hx.Violation{Key: key, Class: "wrong-value", Detail: map[string]any{"ast": g2s(res)}})
+					}
+				}
+				w.DistinctS("same" + ty.t.Kind().String() + tx)
+			}
+		}
+	}
+}
+
 func g2s(p *any) string {
 	if p == nil || *p == nil {
 		return "<nil>"
@@ -990,6 +1065,38 @@ func runC18Mappers(w *hx.Worker, inputs []string) {
 						}
 					}
 				}
+				if bad == "" {
+					// the bytes entry point runs the same mappers
+					g1, e1 := upper.ParseString("", in)
+					g2, e2 := upper.ParseBytes("", []byte(in))
+					if (e1 == nil) != (e2 == nil) || (e1 == nil && fmt.Sprint(g1.V) != fmt.Sprint(g2.V)) {
+						bad = fmt.Sprintf("ParseBytes gives %v (%v), ParseString %v (%v)", g2, e2, g1, e1)
+					}
+				}
+				if bad == "" && len(in) >= 2 {
+					// two lexers handed out by the parser's (mapping) definition, read alternately, are two lexers
+					other := in[1:] + in[:1]
+					la, ea := upper.Lexer().Lex("", strings.NewReader(in))
+					lb, eb := upper.Lexer().Lex("", strings.NewReader(other))
+					if ea == nil && eb == nil {
+						var sa []string
+						for k := 0; k < len(in)+2; k++ {
+							if t, err := la.Next(); err == nil && !t.EOF() {
+								sa = append(sa, t.Value)
+							}
+							_, _ = lb.Next()
+						}
+						var wa []string
+						for _, t := range up {
+							if !t.EOF() {
+								wa = append(wa, t.Value)
+							}
+						}
+						if fmt.Sprint(sa) != fmt.Sprint(wa) {
+							bad = fmt.Sprintf("a lexer of the mapped definition read alternately with a second one over %q yields %v, alone %v", other, sa, wa)
+						}
+					}
+				}
 				if bad != "" {
 					w.Violate(hx.Violation{Key: key, Class: "mapper", Detail: map[string]any{"what": bad}})
 					continue
@@ -1098,6 +1205,99 @@ func runC18Combos(w *hx.Worker, inputs []string) {
 	}
 }
 
+// runC18SameType: several options select the SAME token type (and one of them a second type as well): every
+// selected mapper is applied exactly once to every token of the type, whatever the order of the options.
+func runC18SameType(w *hx.Worker, inputs []string) {
+	sym := abLexer.Symbols()
+	wrap := func(l, r string) participle.Mapper {
+		return func(t lexer.Token) (lexer.Token, error) { t.Value = l + t.Value + r; return t, nil }
+	}
+	mk := func(name string) participle.Option {
+		switch name {
+		case "Upper(A)":
+			return participle.Upper("A")
+		case "Map<>(A)":
+			return participle.Map(wrap("<", ">"), "A")
+		case "Map{}(A,B)":
+			return participle.Map(wrap("{", "}"), "A", "B")
+		case "Map[](B)":
+			return participle.Map(wrap("[", "]"), "B")
+		default:
+			return participle.Map(wrap("(", ")"))
+		}
+	}
+	names := []string{"Upper(A)", "Map<>(A)", "Map{}(A,B)", "Map[](B)", "Map()(all)"}
+	var perms [][]int
+	var rec func(cur []int, used int)
+	rec = func(cur []int, used int) {
+		if len(cur) == len(names) {
+			perms = append(perms, append([]int{}, cur...))
+			return
+		}
+		for i := range names {
+			if used&(1<<i) == 0 {
+				rec(append(cur, i), used|1<<i)
+			}
+		}
+	}
+	rec(nil, 0)
+	plain, _ := participle.Build[GAB](participle.Lexer(abLexer), participle.Elide("S"))
+	for _, perm := range perms {
+		opts := []participle.Option{participle.Lexer(abLexer), participle.Elide("S")}
+		order := ""
+		for _, i := range perm {
+			opts = append(opts, mk(names[i]))
+			order += names[i] + " "
+		}
+		p, err := participle.Build[GAB](opts...)
+		if err != nil {
+			w.Violate(hx.Violation{Key: "mapper-same-type order=" + order, Class: "build-failed", Detail: map[string]any{"err": err.Error()}})
+			continue
+		}
+		for _, in := range inputs {
+			key := fmt.Sprintf("mapper-same-type order=%s in=%q", order, in)
+			w.Count("evaluations", 1)
+			base, e0 := plain.Lex("", strings.NewReader(in))
+			got, e1 := p.Lex("", strings.NewReader(in))
+			if e0 != nil || e1 != nil || len(got) != len(base) {
+				if (e0 == nil) != (e1 == nil) || (e0 == nil && len(got) != len(base)) {
+					w.Violate(hx.Violation{Key: key, Class: "mapper-combination", Detail: map[string]any{"what": fmt.Sprint("lexability / token count changed: ", e0, e1)}})
+				}
+				continue
+			}
+			bad := ""
+			for i, b := range base {
+				if b.EOF() {
+					continue
+				}
+				v := got[i].Value
+				want := map[string]int{"(": 1, ")": 1}
+				letters := b.Value
+				switch b.Type {
+				case sym["A"]:
+					want["<"], want[">"], want["{"], want["}"] = 1, 1, 1, 1
+					letters = strings.ToUpper(b.Value)
+				case sym["B"]:
+					want["{"], want["}"], want["["], want["]"] = 1, 1, 1, 1
+				}
+				for _, m := range []string{"(", ")", "<", ">", "{", "}", "[", "]"} {
+					if strings.Count(v, m) != want[m] {
+						bad = fmt.Sprintf("token %d %q (base %q): marker %q occurs %d times, expected %d", i, v, b.Value, m, strings.Count(v, m), want[m])
+					}
+				}
+				if core := strings.Trim(v, "()<>{}[]"); bad == "" && core != letters {
+					bad = fmt.Sprintf("token %d %q: text %q, expected %q", i, v, core, letters)
+				}
+			}
+			if bad != "" {
+				w.Violate(hx.Violation{Key: key, Class: "mapper-combination", Detail: map[string]any{"what": bad}})
+				continue
+			}
+			w.DistinctS("same" + order + fmt.Sprint(got))
+		}
+	}
+}
+
 // ---------------------------------------------------------------- plumbing
 
 func chunks(ss []string, n int) [][]string {
@@ -1147,6 +1347,9 @@ func plan(c *hx.Ctx) *hx.Plan {
 					runC17Nested(w, kinds[i-len(js)])
 					runC17Tail(w, kinds[i-len(js)])
 					runC17Again(w, kinds[i-len(js)])
+					if i == len(js) {
+						runC17SameName(w)
+					}
 					return
 				}
 				runC17(w, js[i], "")
@@ -1193,6 +1396,7 @@ func plan(c *hx.Ctx) *hx.Plan {
 				runC18Mappers(w, abIns)
 			default:
 				runC18Combos(w, comboIns)
+				runC18SameType(w, strs([]string{"a", "b", " ", "é"}, 3))
 			}
 		},
 		Describe: func(i int) string { return fmt.Sprintf("chunk %d", i) },
@@ -1204,12 +1408,13 @@ func plan(c *hx.Ctx) *hx.Plan {
 
 func replay(c *hx.Ctx, key string) []hx.Violation {
 	w := hx.NewReplayWorker()
-	if c.Prop == "C17" && (strings.HasPrefix(key, "nested ") || strings.HasPrefix(key, "tail ") || strings.HasPrefix(key, "again ")) {
+	if c.Prop == "C17" && (strings.HasPrefix(key, "nested ") || strings.HasPrefix(key, "tail ") || strings.HasPrefix(key, "again ") || strings.HasPrefix(key, "same-name ")) {
 		for _, k := range kinds {
 			runC17Nested(w, k)
 			runC17Tail(w, k)
 			runC17Again(w, k)
 		}
+		runC17SameName(w)
 		var out []hx.Violation
 		for _, v := range w.Violations() {
 			if v.Key == key {
@@ -1236,6 +1441,7 @@ func replay(c *hx.Ctx, key string) []hx.Violation {
 	runC18Soups(w, ctx, strs([]string{`\`, "x", "u", "0", "7", "8", "q", `"`, "a", "'"}, 5))
 	runC18Mappers(w, strs([]string{"a", "b", " ", "é"}, 6))
 	runC18Combos(w, strs([]string{"a", "b", " "}, 4))
+	runC18SameType(w, strs([]string{"a", "b", " ", "é"}, 3))
 	var out []hx.Violation
 	for _, v := range w.Violations() {
 		if v.Key == key {
